@@ -21,11 +21,19 @@ THEOREMS = ['Props.C18.' + t for t in [
     'surface_recovery', 'surface_recovery_above_top', 'missing_direction_spacing',
     'direction_track_sizes', 'next_block_unique', 'find_surface_on_line', 'rectangle_half_width', 'rotation_inverse',
     'rectgeo_spacings_partial', 'rectgeo_spacings_2d_partial', 'line_sizes_are_widths', 'surfaces_recovered_partial',
-    'snap_keeps_surface', 'origin_recovered']]
+    'snap_keeps_surface', 'origin_recovered',
+    'row_track_widths', 'rectgeo_spacings_lattice_partial', 'lattice_lines']]
 LEVEL_TEXT = ('Partial proof: Lean theorems about the executable model of rectgeo for the three core steps (the surface formula inverts '
               'block_centre/block_volume for a surface inside a layer and above the top layer; the spacing of a single-block direction is '
               'volume / product of the doubled distances; following a direction along a line of blocks visits exactly that line with a unique '
-              'candidate at each step and returns twice the own distances, which for rectangular columns are the spacings), no sorry; the composition '
+              'candidate at each step and returns twice the own distances, which for rectangular columns are the spacings), no sorry. '
+              'row_track_widths: on a row of a grid described structurally (distinct blocks, the connections joining consecutive ones, no other '
+              'connection of that direction except to boundary blocks) the walk returns the row and the widths, for any connection-set order. '
+              'rectgeo_spacings_lattice_partial: on a full rectangular lattice of blocks (any atmosphere arrangement / boundary blocks) block_spacings '
+              'returns the three width lists; assumed: which top-layer block is topmost. '
+              'lattice_lines: every row and column of such a lattice satisfies the line hypothesis of the walk theorems. '
+              'NOT proved: that fromgeo of a rectangular geometry is such a lattice (so nothing is yet stated directly about rectgeo(fromgeo G)), '
+              'stepped surfaces in the lattice description, the block map; the composition '
               '(rectgeo inverts fromgeo, block map reproduces names/volumes/connections) and general rotation angles are NOT proved: they are '
               'covered by the correspondence run (real rectgeo vs compiled model, exact regeneration check inside the model for axis-aligned grids) '
               'and the direct oracle.')
